@@ -1410,6 +1410,7 @@ def direct_part(ctx, harness, counters, hist):
     directories or at nothing, queued in different orders"""
     r = ctx.rng
     dp = {"ops": 0, "nesting": 0, "range": 0, "link_sets": 0, "flat_sets": 0, "err": 0, "orders_per_set": 3}
+    hist["direct"] = dp
 
     def ent(kind, path, mode, uid=0, gid=0, mtime=0, rdev=0, extra=None):
         return [kind, tok(path), str(mode), str(uid), str(gid), str(mtime), str(rdev), otok(extra)]
@@ -1535,6 +1536,7 @@ def deep_part(ctx, harness, counters, hist):
     if limit is None:
         raise vlib.CheckFailure("maxDirNesting missing from the generated constants")
     dp = {"limit": limit, "cases": 0, "err": 0, "ok": 0}
+    hist["deep"] = dp
     lines, mlines = [], []
     roots = []
     for ci, depth in enumerate((limit, limit + 1) if ctx.quick() else (limit - 1, limit, limit + 1)):
@@ -1972,6 +1974,32 @@ def replay(ctx, path):
     atexit.register(umount_all)
     body = json.loads(open(path).read())
     r = body.get("replay", {})
+    if r.get("level") in ("unit", "direct", "deep"):
+        ctx.lean_build(["sqfsmodel"])
+        if r["level"] == "unit":
+            return replay_unit(ctx, r)
+        harness = build_harness(ctx)
+        if r["level"] == "deep":
+            counters = {"evaluations": 0, "mismatch": 0}
+            deep_part(ctx, harness, counters, {})
+            print("REPRODUCED: deep directory chain: real scan and model disagree" if ctx.violations
+                  else "not reproduced: real scan and model agree around the nesting limit")
+            return 1 if ctx.violations else 0
+        ops = r.get("ops") or [r.get("op") or r.get("next_op")]
+        out, crash = run_harness(ctx, harness, ops, "direct", timeout=300)
+        if crash:
+            print("REPRODUCED: real code aborted / timed out:", crash["rc"])
+            return 1
+        m = model(ctx, ops)
+        bad = 0
+        for o, real, mo in szip(ops, out, m):
+            print("real  %s\nmodel %s" % (real[:300], mo[:300]))
+            bad += real != mo
+        if bad or ("ops" in r and any(x != out[0] for x in out)):
+            print("REPRODUCED")
+            return 1
+        print("not reproduced: real code and model agree, and all orders give the same result")
+        return 0
     desc = r.get("case")
     if not desc or "tree_spec" not in desc:
         print(json.dumps(r, indent=1)[:4000])
@@ -1983,8 +2011,6 @@ def replay(ctx, path):
     orders = r.get("orders") or ([r["order"]] if "order" in r else ["sorted", "reverse"])
     counters = {"evaluations": 0, "d16": 0, "mismatch": 0, "tool_runs": 0, "other": 0, "harness_other": 0, "unit_bad": 0}
     ctx.lean_build(["sqfsmodel"])
-    if r.get("level") == "unit":
-        return replay_unit(ctx, r)
     if r.get("level") == "tool" or "cmdline" in r:
         tools = build_tools(ctx)
         cmd = [c.replace(r.get("tree_root", "\0"), tree.root.decode("utf-8", "surrogateescape")) for c in r["cmdline"]]
